@@ -203,7 +203,12 @@ def run(prop, tier):
         if b in still or (len(rejected) > 2000):
             chk.violation({"input": latin(b), "kind": "lexer-" + prop, "detail": "real lexer stream %s" % json.dumps(rec.get("toks", rec))[:300],
                            "replay": {"family": "lexer", "property": prop, "buf": list(b)}})
-    chk.assumptions = ["LexerCore.tla is the reference (written from the GoogleSQL lexical-structure documentation)",
+    if prop == "C14":
+        # the lexer inside the parser: every token fetch of the fault corpus (dot mode across look-ahead restores,
+        # recovery mode) is compared with the reference lexer in context by ParserTrace.tla (tag LEX)
+        import fam_parser
+        fam_parser.run_into(chk, "C14", tier, os.path.join(wd, "incontext"), faults_only=True)
+    chk.assumptions += ["LexerCore.tla is the reference (written from the GoogleSQL lexical-structure documentation)",
                        "non-ASCII white space is compared only for the code points listed in WsLen; byte 0x08 is not driven",
                        "TLC's Json/CSV community modules read and write the trace files faithfully"]
     return chk.finish()
